@@ -359,6 +359,7 @@ func runC08(p *load.Program, r *core.Report) {
 	// ---- S6..S9
 	c08Endings(p, r, machines)
 	c08Bookkeeping(p, r, machines)
+	c08Stopping(p, r, machines)
 
 	// ---- S4
 	rule4 := "C08.S4 shutdown-bookkeeping"
